@@ -21,6 +21,9 @@ ASSUMPTIONS = {
     "A_R": "residual closure: well-formed, one segment per operation",
     "A_E": "apply: well-formed, one segment per operation, one value per target position",
     "A_X": "ExactSizeIterator::len is exact",
+    "A_OF": "the optic (map_object, map_operations) satisfies the functor contract A_F1/A_F2 when it is applied "
+            "to a whole diagram through define_map_arrow (functoriality of the optic is not decided)",
+    "A_O": "optic generators: fwd : F(A) -> F(B)●M and rev : M●R(B) -> R(A), as stated by the optic's two debug_assert_eq!",
     "A_L": "lax Functor::map_object/map_operation are consistent (doc: not checked, may panic)",
 }
 
@@ -97,10 +100,35 @@ def h_map_operations(I, st, fr, e, c, a):
     src = ("gather", w, v.f["s"].f["table"].t)
     tgt = ("gather", w, v.f["t"].f["table"].t)
     fa, fb = ("Fmap", F, a_vals), ("Fmap", F, b_vals)
-    st.teq = st.teq + ((src, normalise(st, fa)), (tgt, normalise(st, fb)))
-    st.add_eq(t_len(src) - t_len(fa))
-    st.add_eq(t_len(tgt) - t_len(fb))
+    role = optic_role(fr, F)
+    if role != "target-only":
+        st.teq = st.teq + ((src, normalise(st, fa)),)
+        st.add_eq(t_len(src) - t_len(fa))
+    if role == "target-only":
+        # rev : M●R(B) -> R(A)
+        st.teq = st.teq + ((tgt, normalise(st, fa)),)
+        st.add_eq(t_len(tgt) - t_len(fa))
+    elif role != "source-only":
+        st.teq = st.teq + ((tgt, normalise(st, fb)),)
+        st.add_eq(t_len(tgt) - t_len(fb))
+    if role:
+        use(I, "A_O")
     return [(st, v, None)]
+
+
+def optic_role(fr, F):
+    """Inside the optic, `fwd` and `rev` are not functors on the nose: fwd : F(A) -> F(B)●M and
+    rev : M●R(B) -> R(A); the sides involving the residual M are fixed by the optic's two
+    debug_assert_eq!s (assumption A_O)."""
+    f = fr
+    while f is not None:
+        if f.fn is not None and "strict::functor::optic::Optic<" in f.fn["path"] and f.fn["name"] == "map_operations":
+            if str(F).endswith("fwd"):
+                return "source-only"
+            if str(F).endswith("rev"):
+                return "target-only"
+        f = f.parent
+    return None
 
 
 def h_map_arrow(I, st, fr, e, c, a):
